@@ -196,3 +196,24 @@ Example ok_means_solved_R_nonvacuous :
   exists b g, length b = 2 /\
     @run SAR (@sp_mul AR exr_s) (@sp_tmul AR exr_s) 2 2 CG b [1%R; 2%R] 5 1%R = Ok (IOk 0, [1%R; 2%R], g).
 Proof. split; [exact exr_lin|]. apply exr_run_ok. intros itol H; discriminate H. Qed.
+(* ---- tie of the model to the source of this run (package r2c2): gen/SrcIter.v is regenerated from src/sparse.rs by
+   driver/rust2coq.py on every check run; Proofs/SrcEqIter.v proves ERASURE -- each regenerated Krylov solver equals the
+   hand-written model of Model/Iter.v with the ghost projected away (er (result, x, ghost) = (x, result)), for every
+   arithmetic with a square root, every matrix (well-formed or not), every b, x, budget and tolerance; panics included. *)
+From OV Require Proofs.SrcEqIter.
+Theorem model_is_source_C08_Iter : forall F : SArith, @SrcEqIter.model_is_source_Iter F.
+Proof. intros F. exact SrcEqIter.model_is_source_Iter_lemma. Qed.
+Check model_is_source_C08_Iter : forall F : SArith, @SrcEqIter.model_is_source_Iter F.
+Print Assumptions model_is_source_C08_Iter.
+(* non-vacuity: the regenerated solvers run (float instance, the 2x2 SPD system [[4,1],[1,3]] x = [1,2]) and converge in
+   two iterations to x = [1/11, 7/11] up to rounding -- the erasure equations above are not between two panics *)
+From Coq Require Import Floats.
+From OV Require Import Inst.FloatInst.
+Example model_is_source_C08_Iter_nonvacuous :
+  let M : sparse AF := @mkS AF 2 2 4 [4;1;1;3]%float [0;1;0;1] [0;2;4] in
+  match SrcIter.s_solve_cg (F:=SAF) M ([1;2]%float : list (T AF)) ([0;0]%float : list (T AF)) 10 (0x1p-30%float : T AF),
+        SrcIter.s_solve_qmr (F:=SAF) M ([1;2]%float : list (T AF)) ([0;0]%float : list (T AF)) 10 (0x1p-30%float : T AF) with
+  | Ok (_, IOk 2), Ok (_, IOk 2) => True
+  | _, _ => False
+  end.
+Proof. vm_compute. exact I. Qed.
